@@ -21,7 +21,7 @@ def validate(w, name, rows):
 def describe(e, b):
     o = e["ops"][b["at"] - 1]
     return "history %s fails at operation %d: clone calls at %s (%s), forms %s, observed %s" % (
-        [(x["op"], x["id"], x["a"], x["b"], x["rule"], x["ca"], x["attr"], x["asg"], x["k1"], x["k2"]) for x in e["ops"][:b["at"]]], b["at"], o["sess"], o["how"], o["forms"], o["obs"])
+        [(x["op"], x["id"], x["a"], x["b"], x["rule"], x["ca"], x["attr"], x["asg"], x["k1"], x["k2"], x["u"]) for x in e["ops"][:b["at"]]], b["at"], o["sess"], o["how"], o["forms"], o["obs"])
 
 
 def run_one(w, vh, case, name):
@@ -81,7 +81,7 @@ def check(w, tier, t0):
     samples = [{"ops": e["ops"]} for e in (events[len(events) // 3], events[-1])]
     cov = {"states": states, "transitions": trans, "traces_validated_against_impl": len(events), "samples": samples,
            "evaluations": len(events), "distinct_nontrivial": len(nontrivial),
-           "rule": "one evaluation = one history of Save (single auto-increment key; composite key with zero parts) / Create+OnConflict (DoNothing, UpdateAll, DoUpdates a|b|a,b) / FirstOrInit / FirstOrCreate over the key space {1,2,3} starting from one live and one soft-deleted row; every history of <= 2 operations from the TLC state graph (%d), each also with Session or WithContext inserted at every position of the last operation's chain and struct/map/key-value forms of conditions, Attrs and Assign, conditions also through Scopes and as inline arguments, plus %d random histories of <= 5 operations; after every operation the raw table and the returned record are compared; non-trivial = two or more operations or a clone call in a chain" % (len(hs), nrand),
+           "rule": "one evaluation = one history of Save (single auto-increment key; composite key with zero parts) / Create+OnConflict on a unique non-key column with UpdateAll / Create+OnConflict (DoNothing, UpdateAll, DoUpdates a|b|a,b) / FirstOrInit / FirstOrCreate over the key space {1,2,3} starting from one live and one soft-deleted row; every history of <= 2 operations from the TLC state graph (%d), each also with Session or WithContext inserted at every position of the last operation's chain and struct/map/key-value forms of conditions, Attrs and Assign, conditions also through Scopes and as inline arguments, plus %d random histories of <= 5 operations; after every operation the raw table and the returned record are compared; non-trivial = two or more operations or a clone call in a chain" % (len(hs), nrand),
            "exhaustive": True, "histories_enumerated": len(hs)}
     lib.write_evidence(PROP, tier, "model_checking", cov, time.time() - t0, len(verdict.violations),
                        ["tracked timestamps are not part of the model (none in the harness model)",
